@@ -269,7 +269,7 @@ Fixpoint fq_resume (fuel ffuel : nat) (s : stage) (mk_room : bool) (r : fq) : fq
         | QGOk =>
             let '(r2, fr) := fq_fill ffuel r1 in
             match fr with
-            | FillErr k => (qset_st r2 QFinished, QrErr (FqIo k))   (* the error is final *)
+            | FillErr k => (qset_st (qset_buf r2 []) QFinished, QrErr (FqIo k))   (* the error is final, the incomplete buffer is dropped *)
             | FillFuel => (r2, QrFuel)
             | FillOk _ =>
                 match fq_search_from s true r2 with
@@ -448,7 +448,7 @@ Definition fq_seek (ffuel : nat) (r : fq) (line byte_ : nat) : fq * fq_out :=
                                            QPositioned) 0) 0 in
         let '(r1, fr) := fq_fill ffuel r in
         match fr with
-        | FillErr k => (qset_st r1 QFinished, QOErr (FqIo k))   (* the buffer is unusable: the error is final *)
+        | FillErr k => (qset_st (qset_buf r1 []) QFinished, QOErr (FqIo k))   (* the error is final, the incomplete buffer is dropped *)
         | FillFuel => (r1, QOFuel)
         | FillOk _ => (r1, QOOk)
         end
